@@ -59,7 +59,8 @@ def run(tier: str, seed: int) -> int:
             # second channel: another basis function of the same grid -> channels must be treated independently
             k2 = ks[int(rng.integers(0, len(ks)))]
             th2 = sum(k2[2][d] * grid[d] for d in range(D))
-            a2 = float(rng.uniform(0.5, 2.5))
+            # ... whatever their relative magnitude (seven decades below, five above)
+            a2 = float(rng.uniform(0.5, 2.5)) * float(rng.choice([1.0, 1.0, 1e-7, 1e5]))
             u2 = a2 * (np.cos(th2) if k2[3] == "cos" else np.sin(th2))
             fields.append(np.stack([u, u2]))
             meta.append((kappa, trig, a, k2, a2))
@@ -73,11 +74,30 @@ def run(tier: str, seed: int) -> int:
                 w1 = vec(sp[name], N) * (a ** 2 if power else a)
                 w2 = vec(sp2[name], N) * (a2 ** 2 if power else a2)
                 want = np.stack([w1, w2])
-                if G2[i].shape != want.shape or maxabs(G2[i] - want) > 1e-10 * (1 + maxabs(want)):
+                if G2[i].shape != want.shape or any(maxabs(G2[i][c] - want[c]) > 1e-10 * (am ** 2 if power else am) for c, am in ((0, a), (1, a2))):
                     run_.violation({"kind": "basis", "D": D, "N": N, "what": name},
                                    {"kappa": list(kappa), "trig": trig, "second": [list(k2[2]), k2[3]], "got": G2[i].tolist(), "want": want.tolist()})
                 if G1[i].shape != (1, N // 2 + 1) or maxabs(G1[i][0] - w1) > 1e-10 * (1 + maxabs(w1)):
                     run_.violation({"kind": "basis-single-channel", "D": D, "N": N, "what": name}, {"kappa": list(kappa), "trig": trig})
+        # superposition inside one channel with a large dynamic range: a weak mode next to a strong one in another bin keeps its own bin exactly
+        sup, smeta = [], []
+        for (kappa, trig, a, k2, a2) in meta[:: max(1, len(meta) // 12)]:
+            w1 = vec(states[(D, N, kappa, trig)]["amp_sum"], N)
+            w2 = vec(states[k2]["amp_sum"], N)
+            if np.any((w1 != 0) & (w2 != 0)) or not w2.any() or not w1.any():
+                continue
+            th1 = sum(kappa[d] * grid[d] for d in range(D))
+            th2 = sum(k2[2][d] * grid[d] for d in range(D))
+            eps = 1e-7
+            sup.append((np.cos(th1) if trig == "cos" else np.sin(th1)) + eps * (np.cos(th2) if k2[3] == "cos" else np.sin(th2)))
+            smeta.append((kappa, trig, k2, w1 + eps * w2, eps * maxabs(w2)))
+        if sup:
+            G = np.nan_to_num(np.asarray(jax.vmap(functools.partial(ex.get_spectrum, power=False, radial_binning="sum"))(jnp.asarray(np.stack(sup))[:, None])), nan=0.0)
+            for i, (kappa, trig, k2, want, small) in enumerate(smeta):
+                run_.case(("dynamic-range", D, N, kappa, trig, k2))
+                if maxabs(G[i][0] - want) > 1e-8 * small + 1e-14:
+                    run_.violation({"kind": "dynamic-range", "D": D, "N": N, "what": "weak mode next to a strong one"},
+                                   {"kappa": list(kappa), "weak": [list(k2[2]), k2[3]], "err": maxabs(G[i][0] - want), "weak_amplitude": small})
         for (kappa, trig, a, k2, a2) in meta:
             run_.case((D, N, kappa, trig))
             if nsamp < 3 and D > 1:
